@@ -62,6 +62,8 @@ def unit_meta(path):
             meta['serves'] = s.split()[2:]
         elif s.startswith('//@ tier '):
             meta['tier'] = s.split()[2]
+        elif s.startswith('//@ rlimit '):
+            meta['rlimit'] = int(s.split()[2])
     return meta
 
 
@@ -224,11 +226,13 @@ def run_unit(path, repo=None, with_vac=True):
     res['n_lines'] = len(lines)
     res['n_repo_lines'] = sum(1 for o in lmap if o.get('k') == 'repo')
 
+    base_rlimit = unit_meta(path).get('rlimit')
+
     def go(rsfile, lm):
-        cmd, rc, js, diags, dt, stderr = run_verus(rsfile)
+        cmd, rc, js, diags, dt, stderr = run_verus(rsfile, rlimit=base_rlimit)
         errs = [d for d in diags if d.get('level') == 'error' and 'aborting due to' not in d.get('message', '')]
         if any('rlimit' in d['message'].lower() or 'resource limit' in d['message'].lower() for d in errs):
-            cmd, rc, js, diags, dt2, stderr = run_verus(rsfile, rlimit=60)
+            cmd, rc, js, diags, dt2, stderr = run_verus(rsfile, rlimit=max(60, 4 * (base_rlimit or 10)))
             dt += dt2
             errs = [d for d in diags if d.get('level') == 'error' and 'aborting due to' not in d.get('message', '')]
         return cmd, rc, js, errs, dt, stderr
@@ -371,7 +375,8 @@ def main():
     t0 = time.time()
     import props
     spec = props.PROPS[prop]
-    units = [p for p in unit_files() if prop in unit_meta(p)['serves'] and (tier == 'thorough' or unit_meta(p).get('tier', 'quick') == 'quick')]
+    deps = [prop] + spec.get('depends', [])
+    units = [p for p in unit_files() if (set(deps) & set(unit_meta(p)['serves'])) and (tier == 'thorough' or unit_meta(p).get('tier', 'quick') == 'quick')]
     if '--replay' in args:
         rp = json.load(open(args[args.index('--replay') + 1]))
         units = [p for p in units if unit_meta(p)['unit'] == rp['unit']]
@@ -399,14 +404,14 @@ def main():
             continue
         failing_ids = set()
         for f in r['failures']:
-            if prop in f['tags']:
+            if set(deps) & set(f['tags']):
                 failing_ids.add(f['id'])
                 if f['id'] in kf:
                     knownhits.append((f, kf[f['id']]))
                 else:
                     violations.append((r, f))
-        labs = [l for l, tg in r['labels'].items() if prop in tg]
-        fns = [it for it in r['items'] if prop in it['tags'] and it['is_fn']]
+        labs = [l for l, tg in r['labels'].items() if set(deps) & set(tg)]
+        fns = [it for it in r['items'] if (set(deps) & set(it['tags'])) and it['is_fn']]
         n_obl += len(labs) + len(fns)
         n_dis += len(labs) + len(fns) - min(len(failing_ids), len(labs) + len(fns))
         samples += ['%s::%s' % (r['unit'], l) for l in labs[:4]]
@@ -480,6 +485,7 @@ def main():
             'extra_checks': [{k: v for k, v in e.items() if k not in ('violations',)} for e in extra],
             'known_findings_reported': [k['what'] for _, k in knownhits],
             'not_decided': spec.get('not_decided', []),
+            'builds_on': spec.get('depends', []),
             'bounded': spec.get('bounded', []),
             'undecided': [{'unit': r['unit'], 'reason': r['reason']} for r in undecided],
         },
